@@ -1415,7 +1415,7 @@ func (c *Client) sendSingleMsg(client *smtp.Client, message *Msg) error {
 			client.SetDSNMailReturnOption(string(c.dsnReturnType))
 		}
 	}
-	if err = client.Mail(from); err != nil {
+	if err = client.Mail(envelopeAddress(from)); err != nil {
 		retError := &SendError{
 			Reason: ErrSMTPMailFrom, errlist: []error{err}, isTemp: isTempError(err),
 			affectedMsg: message, errcode: errorCode(err),
@@ -1435,7 +1435,7 @@ func (c *Client) sendSingleMsg(client *smtp.Client, message *Msg) error {
 	rcptNotifyOpt := strings.Join(c.dsnRcptNotifyType, ",")
 	client.SetDSNRcptNotifyOption(rcptNotifyOpt)
 	for _, rcpt := range rcpts {
-		if err = client.Rcpt(rcpt); err != nil {
+		if err = client.Rcpt(envelopeAddress(rcpt)); err != nil {
 			rcptSendErr.Reason = ErrSMTPRcptTo
 			rcptSendErr.errlist = append(rcptSendErr.errlist, err)
 			rcptSendErr.rcpt = append(rcptSendErr.rcpt, rcpt)
@@ -1497,6 +1497,40 @@ func (c *Client) sendSingleMsg(client *smtp.Client, message *Msg) error {
 		}
 	}
 	return nil
+}
+
+// envelopeAddress returns the address of a mail.Address (local part unquoted, as net/mail
+// provides it) in the form required inside the angle brackets of a MAIL FROM or RCPT TO command
+// (RFC 5321, section 4.1.2): a local part that is not a dot-string is sent as a quoted-string.
+func envelopeAddress(addr string) string {
+	at := strings.LastIndex(addr, "@")
+	if at <= 0 {
+		return addr
+	}
+	local, domain := addr[:at], addr[at:]
+	isDotString := local[0] != '.' && local[len(local)-1] != '.' && !strings.Contains(local, "..")
+	for i := 0; i < len(local) && isDotString; i++ {
+		char := local[i]
+		switch {
+		case char >= 'a' && char <= 'z', char >= 'A' && char <= 'Z', char >= '0' && char <= '9', char >= 0x80:
+		case strings.IndexByte("!#$%&'*+-/=?^_`{|}~.", char) >= 0:
+		default:
+			isDotString = false
+		}
+	}
+	if isDotString {
+		return addr
+	}
+	quoted := strings.Builder{}
+	quoted.WriteByte('"')
+	for i := 0; i < len(local); i++ {
+		if local[i] == '"' || local[i] == '\\' {
+			quoted.WriteByte('\\')
+		}
+		quoted.WriteByte(local[i])
+	}
+	quoted.WriteByte('"')
+	return quoted.String() + domain
 }
 
 // checkConn ensures that a required server connection is available and extends the connection
